@@ -20,6 +20,11 @@ What is extracted (everything the C15 model takes from the source instead of fro
     and its default max_age;
   * DHTCommunity.store_on_nodes: the size filter and the count cap applied to `values`, and the local
     `for value in reversed(values): self.add_value(key, value, storage)` loop;
+    the freshness test a received token must pass before a StoreRequest is sent (comparison operator);
+  * DHTCommunity.on_find_request: requesting node from get_requesting_node(peer), blocked => drop, the answer's token is
+    generate_token(<that node>), storage.get(payload.target, payload.offset[, limit=MAX_VALUES_IN_FIND]);
+  * DHTCommunity.token_maintenance: whole function (append a fresh secret, then drop received tokens past
+    TOKEN_EXPIRATION_TIME while iterating over a copy, or the equivalent dict comprehension);
   * DHTCommunity.post_process_values: `max`/`min` and the key index used to pick one value per signer;
   * Storage.put: the version comparison operator that allows replacement; Value.expired: its comparison operator;
     Storage.clean: whether the reverse scan stops (`break`) at the first non-expired value;
